@@ -49,7 +49,7 @@ def shaped_job(style, sc, k, tier, timeout, internals=False):
     d = {'STYLE': style, 'GRAN': 4, 'K': k, 'S': 14, 'PRE': nreq, 'MINSZ': 4, 'SCRIPT': script}
     if internals: d['HEAP_INTERNALS'] = 1
     J('C18', 'c18_shaped_%s_%s_k%d%s' % (style.replace('_style', ''), sc, k, '_int' if internals else ''), 'c18_mm.cc', 'c18_shaped', units=units, defines=d,
-      gxx_units=['io.cc', 'memory_managers/malloc_style.cc'], unit_defines={'MEDDLY_VERIF_ARENA': arena}, arena=('uint32_t', arena), unwind=k + nreq + 4, timeout=timeout, tier=tier,
+      gxx_units=['io.cc', 'memory_managers/malloc_style.cc'], unit_defines={'MEDDLY_VERIF_ARENA': arena}, arena=('uint32_t', arena), unwind=k + nreq + 4, timeout=timeout, tier=tier, mem_gb=12 if k < 2 else 20,
       covers=[2] + ([6] if internals and sc != 'holes3' else []),
       desc='%s, 4-byte slots: start state built by the script [%s] (%s), then %d nondet step(s) (request size in [4,14] / recycle any live chunk)%s; arena %d slots (hook H1), growth beyond it cut' % (
           style, script, what, k, '; plus the heap manager\'s own bookkeeping (current hole, heap root inside the used part of the arena)' if internals else '', arena))
@@ -222,16 +222,20 @@ for opn, nm in ((0, 'union'), (1, 'intersection'), (2, 'difference'), (3, 'compl
 
 # ---------------------------------------------------------------- C11 (L1: cardinality of the functions an edge denotes without a node)
 for rt, nm in ((0, 'int'), (1, 'real')):
-    J('C11', 'c11_card_%s' % nm, 'c11_card.cc', 'c11_card', units=['ct_entry_type.cc', 'compute_table.cc', 'node_headers.cc', 'arrays.cc', 'memstats.cc', 'statset.cc', 'varorder.cc', 'oper_item.cc', 'edge_value.cc', 'error.cc'],
-      defines={'RT': rt}, gxx_units=['ALL'], gxx_exclude=['operations/cardinality.cc'], gxx_extra=['-Wl,--allow-multiple-definition'],
-      unwind=10, timeout=900, backend='z3', covers=[1, 2],
-      desc='cardinality (%s result, real operations/cardinality.cc, real constructor): operand empty or the terminal true at level L in [-2,2] of a set / relation forest under every reduction rule, all level sizes symbolic in [1,1023]; recursion over skipped levels real, unpacking of nodes cut' % nm)
+    for rel, rule, kn in ((0, 0, 'set_fully'), (0, 1, 'set_quasi'), (1, 0, 'rel_fully'), (1, 1, 'rel_quasi'), (1, 2, 'rel_ident')):
+        # two bounds per case: sizes up to 1023 with z3 (decides the unchanged code in seconds because both sides multiply identical terms, but
+        # cannot search for a counterexample through 64-bit multipliers in reasonable time), sizes up to 15 with SAT (finds counterexamples)
+        for maxsz, be in ((1023, 'z3'), (15, 'sat')):
+            J('C11', 'c11_card_%s_%s_s%d' % (nm, kn, maxsz), 'c11_card.cc', 'c11_card', units=['ct_entry_type.cc', 'compute_table.cc', 'node_headers.cc', 'arrays.cc', 'memstats.cc', 'statset.cc', 'varorder.cc', 'oper_item.cc', 'edge_value.cc', 'error.cc'],
+              defines={'RT': rt, 'REL': rel, 'RULE': rule, 'MAXSZ': maxsz}, gxx_units=['ALL'], gxx_exclude=['operations/cardinality.cc'], gxx_extra=['-Wl,--allow-multiple-definition'],
+              unwind=10, timeout=900, backend=be, covers=([1] if rule != 1 else []) + ([2] if rule == 2 else []), object_bits=12, tier='quick' if rt == 0 else 'exp',
+              desc='cardinality (%s result, real operations/cardinality.cc, real constructor) on a %s forest: operand empty or the terminal true at any level L (2 variables; relations: primed levels too), all level sizes symbolic in [1,%d] (%s); recursion over skipped levels real, unpacking of nodes cut' % (nm, kn.replace('_', ', '), maxsz, be))
 
 # ---------------------------------------------------------------- C17 (L2: forest / edge registries under a bounded lifecycle history)
 for k, tier, to in ((3, 'quick', 1500), (4, 'quick', 2400), (5, 'thorough', 7200), (6, 'thorough', 14400)):
     J('C17', 'c17_registry_k%d' % k, 'c17_registry.cc', 'c17_registry', units=['forest.cc', 'dd_edge.cc', 'edge_value.cc', 'policies.cc', 'error.cc'],
       defines={'NSTEPS': k}, gxx_units=['ALL'], gxx_extra=['-Wl,--allow-multiple-definition'], extra_c=[os.path.join(os.path.dirname(os.path.abspath(__file__)), '..', 'tool', 'rt', 'stub_string.c')],
-      unwind=8, unwind_re={r'^__ll2c_mem': 12}, timeout=to, tier=tier, covers=[1, 2, 3] + ([4] if k >= 4 else []), ptr_overflow=False, cut='_M_realloc_insert',
+      unwind=k + 7, unwind_re={r'^__ll2c_mem': 12}, timeout=to, tier=tier, covers=[1, 2, 3] + ([4] if k >= 4 else []), ptr_overflow=False, cut='_M_realloc_insert',
       desc='forest registry + root-edge registry + dd_edge attach/detach/copy/destroy (real forest.cc, dd_edge.cc) over forest records: %d nondet lifecycle steps from {create forest, destroy forest, construct edge, attach, assign, destroy edge} over 3 forests and 3 edges; CBMC pointer/bounds checks on, --pointer-overflow-check off (it alone exhausts 12 GB here)' % k)
 
 # ---------------------------------------------------------------- C07 (L2: real compute table over real node headers)
